@@ -1,6 +1,8 @@
 import YaqsModel.Lemmas.PipelineJump
 import YaqsModel.Lemmas.SJump
 import YaqsModel.Lemmas.GridFl
+import YaqsModel.Lemmas.LocalOp
+import YaqsModel.Lemmas.LocalOpLinks
 
 /-!
 # C14 — a scheduled jump acts exactly once, at its scheduled time
@@ -302,3 +304,493 @@ example : firing ([2, 2, 0].map (gridTime (1/10))) ((List.range 4).map (gridTime
   decide +kernel
 
 end Yaqs.SJump
+
+/-!
+# C14 extension — "applying the operator once at that time, renormalising": the contraction IS the dense operator
+
+The theorems above decide WHEN `apply_scheduled_jumps` runs (`SJ m` in the history of a column, once, after `m` steps).  What
+`SJ m` does to the state — and what the jump branch of C01/C03's lottery, a gate of C02's schedule and a dissipation factor
+of C03 do — is a tensor contraction on one site (`oe.contract("ab, bcd->acd", X, T[i])`), on two merged adjacent sites
+(`merge_mps_tensors`, the same contraction, `split_mps_tensor`) or on two far sites (two one-site contractions), followed by
+`normalize("B")`.  This part proves that these contractions are the dense operator `1 ⊗ … ⊗ X ⊗ … ⊗ 1` applied to the dense
+vector, with the index conventions read off the code, for every chain length, site, bond dimension and physical dimension.
+
+Setting (that of C10): a site tensor is `σ → Matrix ι ι K`, the amplitude of a configuration is an entry of `chain ts cfg`;
+`Psi n ts c = chain ts (List.ofFn c)` is the dense vector indexed by configurations `c : Fin n → σ`, `act E V` a dense operator
+acting on it.  The embedded operator is `Yaqs.Embed.embedL (siteLens p) X` — entry `X[c_p, c'_p]` if `c`, `c'` agree elsewhere,
+else `0` — which is literally what C04's `embed1 d n p X` unfolds to and what C06's `embed_site_one` proves `_embed_generic` to
+be at Kronecker positions; a configuration `c` sits at position `toVecIdx` (site 0 least significant) of `MPS.to_vec()`
+(`apply_one_site_to_vec`, C06 `toVec_is_reversed`).  The executable list model (`Model/LocalOp.lean`: `applyOne`, `mergeKet2`,
+`applyTwoMerged`, `splitTheta`), which the correspondence check runs against the real contractions, satisfies the same
+identities (`…_exec`).
+-/
+set_option linter.unusedSectionVars false
+
+namespace Yaqs.LocalOp
+
+open Matrix Yaqs.Mps.Alg Yaqs.Embed
+
+section dense
+variable {K : Type*} [CommRing K] {ι σ : Type*} [Fintype ι] [DecidableEq ι] [Fintype σ]
+
+/-- **C14.3a `apply_one_site_dense` (amplitudes)**  For every chain, every site `i = |pre|`, every operator `X` on the physical
+    index and every configuration: the amplitude of the chain with `oe.contract("ab, bcd->acd", X, T[i])` in place of `T[i]`
+    is `Σ_b X[σ_i, b] · amp(old, σ[i := b])` — the ROW index of `X` is the new physical index. -/
+theorem apply_one_site_amplitudes (pre post : List (Site σ ι K)) (A : Site σ ι K) (X : Matrix σ σ K) (cfg : List σ)
+    (h : pre.length < cfg.length) :
+    chain (pre ++ applySite X A :: post) cfg =
+      ∑ b, X cfg[pre.length] b • chain (pre ++ A :: post) (cfg.set pre.length b) :=
+  chain_applySite_set pre post A X cfg h
+
+variable [DecidableEq σ]
+
+/-- **C14.3b `apply_one_site_dense`**  … i.e. the new dense vector is `embed_p(X) · old`, with `embed_p(X) = 1 ⊗ … ⊗ X ⊗ … ⊗ 1`
+    the operator whose entry between configurations `c`, `c'` is `X[c_p, c'_p]` when they agree off site `p` and `0` otherwise
+    (C04 `embed1` / C06 `embed_site_one`).  Second component: entrywise it is an ordinary matrix–vector product. -/
+theorem apply_one_site_dense (n : Nat) (pre post : List (Site σ ι K)) (A : Site σ ι K) (X : Matrix σ σ K) (p : Fin n)
+    (hp : (p : Nat) = pre.length) :
+    Psi n (pre ++ applySite X A :: post) = act (embedL (siteLens p) X) (Psi n (pre ++ A :: post)) ∧
+    ∀ a b, psi n (pre ++ applySite X A :: post) a b = embedL (siteLens p) X *ᵥ psi n (pre ++ A :: post) a b := by
+  have h := Psi_applySite n pre post A X p hp
+  refine ⟨h, fun a b => ?_⟩
+  rw [← act_psi]
+  funext c
+  simp only [psi, h]
+
+/-- **C14.3c (what the embedded operator is)**  its entries: `X[c_p, c'_p]` if `c` and `c'` agree on every other site, else `0` -/
+theorem embedded_operator_entries (n : Nat) (p : Fin n) (X : Matrix σ σ K) (c c' : Fin n → σ) :
+    embedL (siteLens p) X c c' = if (∀ k, k ≠ p → c k = c' k) then X (c p) (c' p) else 0 := by
+  show (if Function.update c p (c' p) = c' then X (c p) (c' p) else 0) = _
+  have key : Function.update c p (c' p) = c' ↔ ∀ k, k ≠ p → c k = c' k := by
+    constructor
+    · intro h k hk
+      have := congrFun h k
+      rwa [Function.update_of_ne hk] at this
+    · intro h
+      funext k
+      by_cases hk : k = p
+      · subst hk; simp
+      · rw [Function.update_of_ne hk]; exact h k hk
+  by_cases hc : Function.update c p (c' p) = c'
+  · rw [if_pos hc, if_pos (key.mp hc)]
+  · rw [if_neg hc, if_neg (fun h => hc (key.mpr h))]
+
+/-- **C14.4a `apply_two_site_dense` (amplitudes)**  Two adjacent sites: `mergeSite A B (s, t) = A[s]·B[t]` is
+    `merge_mps_tensors` with the LEFT site as the major index.  For ANY pair `(A', B')` whose two-site block is the merged
+    tensor with `M` contracted in (what `split_mps_tensor` returns when nothing is truncated, whatever the distribution of the
+    singular values) the new amplitudes are `Σ_{b,c} M[(σ_i, σ_{i+1}), (b, c)] · amp(old, σ[i := b, i+1 := c])`. -/
+theorem apply_two_site_amplitudes (pre post : List (Site σ ι K)) (A B A' B' : Site σ ι K) (M : Matrix (σ × σ) (σ × σ) K)
+    (hsplit : ∀ s t, A' s * B' t = applySite M (mergeSite A B) (s, t)) (c1 c2 : List σ) (s t : σ)
+    (h : c1.length = pre.length) :
+    chain (pre ++ A' :: B' :: post) (c1 ++ s :: t :: c2)
+      = ∑ x : σ × σ, M (s, t) x • chain (pre ++ A :: B :: post) (c1 ++ x.1 :: x.2 :: c2) :=
+  chain_applyPair pre post A B A' B' M hsplit c1 c2 s t h
+
+/-- **C14.4b `apply_two_site_dense`**  … i.e. the new dense vector is `embed_{p,p+1}(M) · old`, rows and columns of `M` indexed by
+    `(σ_p, σ_{p+1})` (C04 `embed2`; in the flat convention of the code `M[2σ_p + σ_{p+1}, …]`, C06 `embed_site_adjacent`). -/
+theorem apply_two_site_dense (n : Nat) (pre post : List (Site σ ι K)) (A B A' B' : Site σ ι K)
+    (M : Matrix (σ × σ) (σ × σ) K) (hsplit : ∀ s t, A' s * B' t = applySite M (mergeSite A B) (s, t)) (p q : Fin n)
+    (hp : (p : Nat) = pre.length) (hq : (q : Nat) = pre.length + 1) (hpq : p ≠ q) :
+    Psi n (pre ++ A' :: B' :: post) = act (embedL (pairLens p q hpq) M) (Psi n (pre ++ A :: B :: post)) :=
+  Psi_applyPair n pre post A B A' B' M hsplit p q hp hq hpq
+
+section trunc
+open Yaqs.Split
+variable [StarRing K] {κ : Type*} [Fintype κ] [DecidableEq κ]
+
+/-- **C14.4c `apply_two_site_dense` (truncating split)**  From the SVD spec of the matrix `split_mps_tensor` decomposes
+    (`thetaOf`: rows `(s, l)`, columns `(t, r)`): with nothing discarded the returned pair satisfies the hypothesis `hsplit` of
+    C14.4a/b exactly; with a kept set `kept` the two-site block written back differs from `M · merged` by exactly the discarded
+    singular weight `Σ_{j dropped} |s_j|²` (squared Frobenius norm) — C09 `c09_split_error` through the reshape. -/
+theorem apply_two_site_split (A B : Site σ ι K) (M : Matrix (σ × σ) (σ × σ) K)
+    (U : Matrix (σ × ι) κ K) (sv : κ → K) (V : Matrix κ (σ × ι) K)
+    (hspec : thetaOf (applySite M (mergeSite A B)) = U * diagonal sv * V) (hU : Uᴴ * U = 1) (hV : V * Vᴴ = 1) :
+    (∀ s t, splitLeft U s * splitRight sv V t = applySite M (mergeSite A B) (s, t)) ∧
+    ∀ (kept : κ → Prop) [DecidablePred kept],
+      frobSq (thetaOf (applySite M (mergeSite A B)) - blockOf (splitLeft U) (splitRight (maskKept kept sv) V))
+        = ∑ j, if kept j then 0 else star (sv j) * sv j :=
+  ⟨applyPair_exact_split A B M U sv V hspec, fun kept _ => applyPair_truncation_error A B M U sv V hspec hU hV kept⟩
+
+end trunc
+
+/-- **C14.5 `long_range_pair_dense`**  A long-range Pauli pair is two one-site contractions (`factors[0]` on site `p`,
+    `factors[1]` on site `q > p`): the new dense vector is `embed_p(X) · embed_q(Y) · old`. -/
+theorem long_range_pair_dense (n : Nat) (pre mid post : List (Site σ ι K)) (A B : Site σ ι K) (X Y : Matrix σ σ K)
+    (p q : Fin n) (hp : (p : Nat) = pre.length) (hq : (q : Nat) = pre.length + 1 + mid.length) :
+    Psi n (pre ++ applySite X A :: (mid ++ applySite Y B :: post))
+      = act (embedL (siteLens p) X * embedL (siteLens q) Y) (Psi n (pre ++ A :: (mid ++ B :: post))) :=
+  Psi_applyFactors n pre mid post A B X Y p q hp hq
+
+/-- **C14.5b**  the two applications commute — as dense operators and as functions on the tensor list — and their product is
+    `X ⊗ Y` on the pair of sites `(p, q)`. -/
+theorem long_range_pair_commutes (n : Nat) (p q : Fin n) (hpq : p ≠ q) (X Y : Matrix σ σ K) :
+    Commute (embedL (siteLens p : Lens (Fin n → σ) σ) X) (embedL (siteLens q) Y) ∧
+    embedL (pairLens p q hpq : Lens (Fin n → σ) (σ × σ)) (Matrix.kroneckerMap (· * ·) X Y)
+      = embedL (siteLens p) X * embedL (siteLens q) Y ∧
+    ∀ ts : List (Site σ ι K), applyAt X p (applyAt Y q ts) = applyAt Y q (applyAt X p ts) :=
+  ⟨(embed_factors n p q hpq X Y).1, (embed_factors n p q hpq X Y).2,
+   fun ts => applyAt_comm X Y p q (fun h => hpq (Fin.ext h)) ts⟩
+
+/-- **C14.6a (the applications as operations on the state)**  `applyAt X i` (one site), `applyPairAt sp M i` (merge, contract,
+    untruncated split `sp`) act on the dense vector of every chain of `n` sites as `embed_i(X)` resp. `embed_{i,i+1}(M)`, and
+    compositions act as the product (later operation to the left). -/
+theorem applications_represent (n : Nat) :
+    (∀ (i : Nat) (hi : i < n) (X : Matrix σ σ K), Represents n (applyAt (ι := ι) X i) (embedL (siteLens (⟨i, hi⟩ : Fin n)) X)) ∧
+    (∀ (i : Nat) (hi : i + 1 < n) (sp : Splitter σ ι K) (M : Matrix (σ × σ) (σ × σ) K),
+      Represents n (applyPairAt sp M i) (embedL (pairLens (⟨i, by omega⟩ : Fin n) ⟨i + 1, hi⟩ (by simp)) M)) ∧
+    (∀ (f g : List (Site σ ι K) → List (Site σ ι K)) (E F : Matrix (Fin n → σ) (Fin n → σ) K),
+      Represents n f E → Represents n g F → Represents n (g ∘ f) (F * E)) :=
+  ⟨fun i hi X => represents_applyAt n i hi X, fun i hi sp M => represents_applyPairAt n i hi sp M,
+   fun _ _ _ _ hf hg => hf.comp hg⟩
+
+section norm
+variable [StarRing K]
+
+/-- **C14.6b `jump_then_normalize`**  Let `f` be any application represented by the dense operator `E` (C14.6a) and let the state
+    be renormalised by `normalize("B")` (QR or SVD shifts, `u`).  Then `E|ψ⟩ = Rᵀ · |ψ_new⟩` where `R` is the factor the last
+    QR of `normalize` throws away; the new chain has unit norm (decompositions returning isometries, their documented and
+    spec-tied behaviour), and consequently `⟨Eψ|Eψ⟩ = Rᵀ (Rᵀ)ᴴ`. -/
+theorem jump_then_normalize (n : Nat) (hpos : 0 < n) (d : Dec σ ι K) (u : Bool)
+    (hq : ∀ A, LeftIso (d.qr A).1) (hs : ∀ A B, LeftIso (d.svd A B).1)
+    (f : List (Site σ ι K) → List (Site σ ι K)) (E : Matrix (Fin n → σ) (Fin n → σ) K) (hf : Represents n f E)
+    (ts : List (Site σ ι K)) (hn : ts.length = n) :
+    ∃ A : Site σ ι K,
+      (∀ c, act E (Psi n ts) c = ((d.qr A).2)ᵀ * Psi n (normalize d u true (f ts)) c) ∧
+      ∑ c : Fin n → σ, Psi n (normalize d u true (f ts)) c * (Psi n (normalize d u true (f ts)) c)ᴴ = 1 ∧
+      ∑ c : Fin n → σ, act E (Psi n ts) c * (act E (Psi n ts) c)ᴴ = ((d.qr A).2)ᵀ * (((d.qr A).2)ᵀ)ᴴ := by
+  obtain ⟨A, hA⟩ := normalize_after n hpos d u f E hf ts hn
+  have hunit := normalize_B_unit_norm n d u hq hs (f ts) (hf ts hn).1
+  refine ⟨A, hA, hunit, ?_⟩
+  simp only [hA, Matrix.conjTranspose_mul]
+  have : ∀ c : Fin n → σ, ((d.qr A).2)ᵀ * Psi n (normalize d u true (f ts)) c *
+      ((Psi n (normalize d u true (f ts)) c)ᴴ * (((d.qr A).2)ᵀ)ᴴ)
+      = ((d.qr A).2)ᵀ * (Psi n (normalize d u true (f ts)) c * (Psi n (normalize d u true (f ts)) c)ᴴ) * (((d.qr A).2)ᵀ)ᴴ := by
+    intro c; simp only [Matrix.mul_assoc]
+  simp only [this]
+  rw [← Finset.sum_mul, ← Finset.mul_sum, hunit, Matrix.mul_one]
+
+/-- **C14.6c `jump_then_normalize` (scalar form)**  With the left boundary bond of dimension one (index `a0`; the `R` of a QR is
+    upper triangular, so its column `a0` is `r·e_{a0}`): the new vector is the applied-to vector divided by the scalar `r`,
+    `E|ψ⟩ = r · |ψ_new⟩` — "the operator applied once, renormalised" (`X|ψ⟩/‖X|ψ⟩‖` up to the phase of `r`). -/
+theorem jump_then_normalize_scalar (n : Nat) (hpos : 0 < n) (d : Dec σ ι K) (u : Bool) (a0 : ι)
+    (hR : ∀ A j, j ≠ a0 → (d.qr A).2 j a0 = 0)
+    (f : List (Site σ ι K) → List (Site σ ι K)) (E : Matrix (Fin n → σ) (Fin n → σ) K) (hf : Represents n f E)
+    (ts : List (Site σ ι K)) (hn : ts.length = n) :
+    ∃ r : K, ∀ b, E *ᵥ psi n ts a0 b = r • psi n (normalize d u true (f ts)) a0 b := by
+  obtain ⟨A, hA⟩ := normalize_after n hpos d u f E hf ts hn
+  refine ⟨(d.qr A).2 a0 a0, fun b => ?_⟩
+  rw [← act_psi]
+  funext c
+  rw [hA c, dropped_RT_is_a_scalar _ _ a0 b (hR A)]
+  rfl
+
+end norm
+
+end dense
+
+/-! ## the scheduled-jump operation `SJ m` of the pipeline model and the jump branch of the lottery -/
+
+section sj
+variable {K : Type*} [CommRing K] [StarRing K] {ι σ : Type*} [Fintype ι] [DecidableEq ι] [Fintype σ] [DecidableEq σ]
+open Yaqs.SJump Yaqs.Pipeline
+
+/-- **C14.7 `scheduled_jump_dense`**  Semantics of the operation `SJ k` of `Model/Pipeline.lean`.  Let the scheduled jumps sit at the
+    grid times `t_m, m ∈ ms` (repetitions allowed), each represented by its dense operator (C14.6a: one-site, adjacent
+    two-site or long-range user operators), and let `k ∈ ms`.  Then at grid index `k` the pipeline's noise step is `SJ k`
+    (`has_scheduled_jump` is true), and `apply_scheduled_jumps(state, nm, t_k)` produces a unit-norm state `|ψ_new⟩` with
+    `(Π_{i : ms[i] = k} X_i)|ψ⟩ = Rᵀ · |ψ_new⟩`: exactly the operators scheduled for `t_k`, each once, in list order (the later
+    one to the left), and nothing scheduled for another time — then renormalised. -/
+theorem scheduled_jump_dense (n : Nat) (hpos : 0 < n) (d : Dec σ ι K)
+    (hq : ∀ A, LeftIso (d.qr A).1) (hs : ∀ A B, LeftIso (d.svd A B).1)
+    (jumps : List (SchedJump n σ ι K)) (hj : ∀ j ∈ jumps, Represents n j.run j.op)
+    (dt : Rat) (hdt : 0 < dt) (ms : List Nat) (hms : jumps.map (·.time) = ms.map (gridTime dt)) (k : Nat) (hk : k ∈ ms)
+    (ts : List (Site σ ι K)) (hn : ts.length = n) :
+    noiseOp ms k = Op.SJ k ∧
+    hasJump (jumps.map (·.time)) (gridTime dt k) dt = true ∧
+    ∃ A : Site σ ι K,
+      (∀ c, act (prodOps jumps ((List.range ms.length).filter (fun i => ms[i]? == some k))) (Psi n ts) c
+        = ((d.qr A).2)ᵀ * Psi n (applyScheduledJumps d jumps (gridTime dt k) dt ts) c) ∧
+      ∑ c : Fin n → σ, Psi n (applyScheduledJumps d jumps (gridTime dt k) dt ts) c *
+        (Psi n (applyScheduledJumps d jumps (gridTime dt k) dt ts) c)ᴴ = 1 := by
+  refine ⟨by simp [noiseOp, hk], by rw [hms, hasJump_grid dt hdt ms k]; simp [hk], ?_⟩
+  have hne : jumps.isEmpty = false := by
+    cases jumps with
+    | nil =>
+      simp only [List.map_nil] at hms
+      have : ms = [] := by simpa using hms.symm
+      rw [this] at hk; simp at hk
+    | cons j js => rfl
+  have hrep := sjBody_represents jumps hj (gridTime dt k) dt
+  have hop : sjOp jumps (gridTime dt k) dt = prodOps jumps ((List.range ms.length).filter (fun i => ms[i]? == some k)) := by
+    unfold sjOp
+    rw [hms, applied_grid dt hdt ms k]
+  rw [hop] at hrep
+  obtain ⟨A, h1, h2, _⟩ := jump_then_normalize n hpos d false hq hs _ _ hrep ts hn
+  refine ⟨A, ?_, ?_⟩
+  · intro c
+    simp only [applyScheduledJumps, hne]
+    exact h1 c
+  · simp only [applyScheduledJumps, hne]
+    exact h2
+
+/-- **C14.7b (one jump at `t_k`)**  if exactly one list position `i` is scheduled for `t_k`, the product is that one operator:
+    "the operator was applied once". -/
+theorem scheduled_single_jump (n : Nat) (jumps : List (SchedJump n σ ι K)) (ms : List Nat) (k i : Nat)
+    (j : SchedJump n σ ι K) (hi : jumps[i]? = some j)
+    (hone : (List.range ms.length).filter (fun i => ms[i]? == some k) = [i]) :
+    prodOps jumps ((List.range ms.length).filter (fun i => ms[i]? == some k)) = j.op := by
+  rw [hone]; exact prodOps_single jumps i j hi
+
+end sj
+
+section value
+variable {K : Type*} [Field K] [StarRing K] {C : Type*} [Fintype C]
+
+/-- **C14.8 `jump_branch_value`** (what C01's `c01_lottery_expectation` assumes of a jump branch, hypothesis `hv`): if the jumped
+    vector is a scalar multiple of the renormalised one, `L_kψ̃ = r · ψ_new` (C14.6c), and `ψ_new` has unit norm, then the value
+    of any observable on the branch state is `⟨ψ_new|O|ψ_new⟩ = a_k / ‖L_kψ̃‖²` with `a_k = ⟨L_kψ̃|O|L_kψ̃⟩` — whenever
+    `‖L_kψ̃‖² ≠ 0` (the excluded branch has probability zero, C01 `c01_zero_weight_never_chosen`). -/
+theorem jump_branch_value (O : Matrix C C K) (φ ψ' : C → K) (r : K) (h : φ = r • ψ') (hunit : star ψ' ⬝ᵥ ψ' = 1)
+    (hne : star φ ⬝ᵥ φ ≠ 0) :
+    star ψ' ⬝ᵥ O *ᵥ ψ' = (star φ ⬝ᵥ O *ᵥ φ) / (star φ ⬝ᵥ φ) := by
+  obtain ⟨h1, h2⟩ := scaled_forms O φ ψ' r h
+  rw [hunit, mul_one] at h2
+  rw [h2] at hne
+  rw [h1, h2, mul_div_cancel_left₀ _ hne]
+
+end value
+
+/-! ## the executable list model does the same (what the correspondence check runs) -/
+
+section exec
+open Yaqs.Mps
+
+/-- **C14.9a `apply_one_site_exec`**  `Model.LocalOp.applyOne` inside a well-shaped chain of any length: the amplitude of the list
+    model after the contraction is `Σ_k op[σ_i][k] · amp(old, σ[i := k])`. -/
+theorem apply_one_site_exec (n : Nat) (hn : 0 < n) (pre post : List Tensor) (t : Tensor) (op : Mat)
+    (hws : wellShapedChain n (pre ++ t :: post) = true) (hop : op.length = t.length) (c1 c2 : List Nat) (s : Nat)
+    (hc1 : cfgOK pre c1 = true) (hs : s < t.length) (hc2 : cfgOK post c2 = true) :
+    amp (pre ++ applyOne op t :: post) (c1 ++ s :: c2) =
+      some (∑ k ∈ Finset.range t.length, entry op s k * (amp (pre ++ t :: post) (c1 ++ k :: c2)).getD 0) :=
+  amp_applyOne n hn pre post t op hws hop c1 c2 s hc1 hs hc2
+
+/-- **C14.9b `apply_one_site_to_vec`**  where these amplitudes sit in `MPS.to_vec()`: the entry of `toVec` at position
+    `toVecIdx` (C06: site 0 least significant, `= kronIdx` of the reversed chain by `toVec_is_reversed`) is the amplitude of
+    the configuration; and the Matrix reading of `applyOne` is `applySite` (slice `s` is `Σ_k op[s][k] · old slice k`). -/
+theorem apply_one_site_to_vec (ts : List Tensor) (cfg : List Nat) (h : cfgOK ts cfg = true) :
+    (toVec ts)[Yaqs.Index.toVecIdx (ts.map physDim) cfg]? = some (amp ts cfg) ∧
+    Yaqs.Index.toVecIdx (ts.map physDim) cfg = vecIndex (ts.map physDim) cfg ∧
+    ∀ (n : Nat) (op : Mat) (t : Tensor), wellShaped t = true → ∀ s, s < op.length →
+      toSite n (applyOne op t) s = ∑ k ∈ Finset.range t.length, entry op s k • toSite n t k :=
+  ⟨toVec_at ts cfg h, (vecIndex_eq_toVecIdx _ _).symm, fun n op t ht s hs => toSite_applyOne n op t ht s hs⟩
+
+/-- **C14.10a `merge_convention`**  `merge_mps_tensors(A, B)` (`"abc,dce->adbe"`, C-order reshape): the merged tensor has
+    `d_i·d_j` slices, slice `s·d_j + t` is `A[s] @ B[t]` — the physical index of the LEFT tensor is the major one —, entry by
+    entry `merged[s·d_j + t][l][r] = Σ_k A[s][l][k]·B[t][k][r]`; in the Matrix reading it is the two-site block
+    `toSite A s * toSite B t` (the `mergeSite` of C14.4). -/
+theorem merge_convention (a b : Tensor) (ha : wellShaped a = true) (hb : wellShaped b = true) (s t : Nat)
+    (hs : s < a.length) (ht : t < b.length) :
+    (mergeKet2 a b).length = a.length * b.length ∧
+    (mergeKet2 a b).getD (s * b.length + t) [] = matMul (a.getD s []) (b.getD t []) ∧
+    (∀ l r N, rightDim a ≤ N → entry ((mergeKet2 a b).getD (s * b.length + t) []) l r
+        = ∑ k ∈ Finset.range N, entry (a.getD s []) l k * entry (b.getD t []) k r) ∧
+    (∀ n, rightDim a ≤ n → toSite n (mergeKet2 a b) (s * b.length + t) = toSite n a s * toSite n b t) :=
+  ⟨mergeKet2_length a b, mergeKet2_getD a b s t hs ht, fun l r N hN => entry_mergeKet2 a b ha hb s t l r hs ht N hN,
+   fun n hn => toSite_mergeKet2 n a b ha hb hn s t hs ht⟩
+
+/-- **C14.10b `apply_two_site_exec`**  `Model.LocalOp.applyTwoMerged` + an exact split inside a well-shaped chain: if the pair written
+    back has the frame of the old pair and its slices multiply to the slices of the merged-and-operated tensor, the new
+    amplitudes are `Σ_{x,y} op[σ_i·d_j + σ_{i+1}][x·d_j + y] · amp(old, σ[i := x, i+1 := y])`. -/
+theorem apply_two_site_exec (n : Nat) (hn : 0 < n) (pre post : List Tensor) (a b a' b' : Tensor) (op : Mat)
+    (hws : wellShapedChain n (pre ++ a :: b :: post) = true) (hf : sameFrame n a b a' b' = true)
+    (hop : op.length = a.length * b.length)
+    (hsplit : ∀ s t, s < a.length → t < b.length →
+      matMul (a'.getD s []) (b'.getD t []) = (applyTwoMerged op a b).getD (s * b.length + t) [])
+    (c1 c2 : List Nat) (s t : Nat) (hc1 : cfgOK pre c1 = true) (hs : s < a.length) (ht : t < b.length)
+    (hc2 : cfgOK post c2 = true) :
+    amp (pre ++ a' :: b' :: post) (c1 ++ s :: t :: c2) =
+      some (∑ x ∈ Finset.range a.length, ∑ y ∈ Finset.range b.length,
+        entry op (s * b.length + t) (x * b.length + y) * (amp (pre ++ a :: b :: post) (c1 ++ x :: y :: c2)).getD 0) :=
+  amp_applyTwo n hn pre post a b a' b' op hws hf hop hsplit c1 c2 s t hc1 hs ht hc2
+
+/-- **C14.10c `split_input_is_theta`**  the matrix `split_mps_tensor` hands to the SVD (`splitTheta`: row `s·D0 + l`, column
+    `t·D2 + r` holds `merged[s·d_j + t][l][r]`) is, for the merged tensor of `(A, B)`, C10's `thetaMat A B` — so the exact and
+    truncated SVD theorems `c10_exec_svd_*` (change = discarded weight, `c09_split_error`) apply to this split as they stand. -/
+theorem split_input_is_theta (a b : Tensor) (ha : wellShaped a = true) (hb : wellShaped b = true) (s l t r : Nat)
+    (hs : s < a.length) (hl : l < leftDim a) (ht : t < b.length) (hr : r < rightDim b) :
+    entry (splitTheta a.length b.length (mergeKet2 a b)) (s * leftDim a + l) (t * rightDim b + r)
+      = entry (thetaMat a b) (s * leftDim a + l) (t * rightDim b + r) ∧
+    ∀ (T : Tensor) (dL dR : Nat), s < dL → t < dR → l < leftDim T → r < rightDim T →
+      entry (splitTheta dL dR T) (s * leftDim T + l) (t * rightDim T + r) = entry (T.getD (s * dR + t) []) l r :=
+  ⟨splitTheta_mergeKet2 a b ha hb s l t r hs hl ht hr,
+   fun T dL dR h1 h2 h3 h4 => entry_splitTheta dL dR T s l t r h1 h3 h2 h4⟩
+
+/-- **C14.10d (long-range pair, executable)**  `applyFactors` is two `applyOne`s, so C14.9a applies to each factor in turn. -/
+theorem apply_factors_exec (op0 op1 : Mat) (a b : Tensor) :
+    applyFactors op0 op1 a b = (applyOne op0 a, applyOne op1 b) := rfl
+
+end exec
+
+/-! ## the same embedded operator as in C04, C06 and C01's dense lottery model -/
+
+section links
+open Yaqs.Index
+
+/-- **C14.11a `embedding_is_c04_c06`**  The embedded operators of C14.3–C14.5 are the ones the other properties use: C04's `embed1` /
+    `embed2` unfold to them, and at Kronecker positions (`kronIdx`: site 0 most significant — the convention of `np.kron`,
+    `_embed_generic`, `MPO.to_matrix`) the lens embedding has exactly the entries of the matrix `_embed_generic(sites=[i],
+    op_matrix=A)` builds (C06 `embed_site_one`; C06 `kron_entry` is the general product form).  `MPS.to_vec()` holds the same
+    amplitudes at `toVecIdx` (site 0 least significant, C14.9b, C06 `toVec_is_reversed`). -/
+theorem embedding_is_c04_c06 :
+    (∀ {K : Type} [CommSemiring K] (d n p : Nat) (hp : p < n) (A : Matrix (Fin d) (Fin d) K),
+      Yaqs.CheckerE2E.embed1 d n p A = embedL (siteLens (⟨p, hp⟩ : Fin n)) A) ∧
+    (∀ {K : Type} [CommSemiring K] (d n p q : Nat) (hp : p < n) (hq : q < n) (hpq : p ≠ q)
+      (G : Matrix (Fin d × Fin d) (Fin d × Fin d) K),
+      Yaqs.CheckerE2E.embed2 d n p q G = embedL (pairLens (⟨p, hp⟩ : Fin n) ⟨q, hq⟩ (Fin.ne_of_val_ne hpq)) G) ∧
+    (∀ {α : Type} [MulZeroOneClass α] (A : Index.Mat α) (pre pre' post post' : List Nat) (x x' : Nat),
+      pre'.length = pre.length → post'.length = post.length → (A.rows = 2 ∧ A.cols = 2) →
+      (∀ z ∈ pre ++ x :: post, z < 2) → (∀ z ∈ pre' ++ x' :: post', z < 2) →
+      ∃ M, Index.embed1 (pre.length + 1 + post.length) pre.length A = some M ∧
+        M.e (kronIdx (List.replicate (pre.length + 1 + post.length) 2) (pre ++ x :: post))
+            (kronIdx (List.replicate (pre.length + 1 + post.length) 2) (pre' ++ x' :: post'))
+          = embedL (siteLens (⟨pre.length, by omega⟩ : Fin (pre.length + 1 + post.length))) (fun i j => A.e i j)
+              (cfgFn _ (pre ++ x :: post)) (cfgFn _ (pre' ++ x' :: post'))) :=
+  ⟨fun d n p hp A => embed_is_c04 d n p hp A, fun d n p q hp hq hpq G => embed2_is_c04 d n p q hp hq hpq G,
+   fun A pre pre' post post' x x' hp hq hA hb hb' => embed_is_c06 A pre pre' post post' x x' hp hq hA hb hb'⟩
+
+/-- **C14.11b `lottery_jump_dense`**  The jump branch of C01 / C03's lottery.  In the dense model the lottery driver runs
+    (`Model/Lottery.lean`), a one-site process with matrix `m` on site `s` is applied by `applyProc = apply1`, and `apply1`
+    computes — at the Kronecker position of every basis state `pre ++ x :: post`, `s = |pre|` — the sum
+    `Σ_c m[x][c] · v[pre ++ c :: post]`: the dense operator `embed_s(m)` of C14.3, i.e. what the MPS contraction of
+    `stochastic_process` produces (C14.3b), after which `normalize("B", "SVD")` divides by the norm (C14.6b/c with `u = true`).
+    So the `a_k = ⟨L_kψ̃|O|L_kψ̃⟩`, `‖L_kψ̃‖²` of `c01_lottery_expectation` are those of the state the code holds (C14.8). -/
+theorem lottery_jump_dense (pre post : List Nat) (x : Nat) (m : Lottery.Mat) (v : Lottery.Vec) (γ : Rat) (pauli : Bool)
+    (hb : ∀ z ∈ pre ++ x :: post, z < 2) (hv : v.length = 2 ^ (pre.length + 1 + post.length)) :
+    Lottery.applyProc (pre.length + 1 + post.length) ⟨[pre.length], γ, pauli, .mat m⟩ v
+      = some (Lottery.apply1 (pre.length + 1 + post.length) pre.length m v) ∧
+    Lottery.vecGet (Lottery.apply1 (pre.length + 1 + post.length) pre.length m v)
+        (kronIdx (List.replicate (pre.length + 1 + post.length) 2) (pre ++ x :: post))
+      = Lottery.CR.add
+          (Lottery.CR.mul (Lottery.matGet m x 0)
+            (Lottery.vecGet v (kronIdx (List.replicate (pre.length + 1 + post.length) 2) (pre ++ 0 :: post))))
+          (Lottery.CR.mul (Lottery.matGet m x 1)
+            (Lottery.vecGet v (kronIdx (List.replicate (pre.length + 1 + post.length) 2) (pre ++ 1 :: post)))) :=
+  ⟨rfl, lottery_apply1_dense pre post x m v hb hv⟩
+
+end links
+
+/-! ## the conventions matter: the neighbouring (wrong) contractions are different functions -/
+
+section differs
+open Yaqs.Mps
+
+/-- **C14.12a**  the transposed contraction `"ba, bcd->acd"` is a different function of (operator, tensor) -/
+theorem applyOne_transposed_differs :
+    ∃ (op : Mat) (t : Tensor), wellShaped t = true ∧ applyOne op t ≠ applyOneT op t :=
+  ⟨[[⟨0, 0⟩, ⟨1, 0⟩], [⟨2, 0⟩, ⟨3, 0⟩]], [[[⟨1, 0⟩, ⟨2, 0⟩]], [[⟨0, 1⟩, ⟨5, 0⟩]]], by decide +kernel, by decide +kernel⟩
+
+/-- **C14.12b**  the merged index with the two sites exchanged (`t·d_i + s`) is a different tensor -/
+theorem mergeKet2_swapped_differs :
+    ∃ (a b : Tensor), wellShaped a = true ∧ wellShaped b = true ∧ mergeKet2 a b ≠ mergeKet2Swapped a b :=
+  ⟨[[[⟨1, 0⟩, ⟨2, 0⟩]], [[⟨0, 1⟩, ⟨5, 0⟩]]], [[[⟨1, 0⟩], [⟨1, 0⟩]], [[⟨0, 0⟩], [⟨3, 0⟩]]],
+   by decide +kernel, by decide +kernel, by decide +kernel⟩
+
+end differs
+
+/-! ## non-vacuity: concrete instances (asymmetric operators, so that every index convention matters) -/
+
+section examples
+open Yaqs.Mps
+
+/-- an asymmetric one-site operator and an asymmetric two-site operator over ℤ -/
+def exX : Matrix (Fin 2) (Fin 2) ℤ := !![0, 1; 2, 3]
+def exM : Matrix (Fin 2 × Fin 2) (Fin 2 × Fin 2) ℤ := fun r c => ((2 * r.1.val + r.2.val) * 5 + (2 * c.1.val + c.2.val) : ℕ)
+
+/-- C14.3a on a three-site chain of C10's example tensors: an instance of the theorem … -/
+example : chain ([exB] ++ applySite exX exA :: [exB]) [1, 0, 1]
+    = ∑ b, exX ([1, 0, 1] : List (Fin 2))[([exB] : List (Site (Fin 2) (Fin 2) ℤ)).length] b
+        • chain ([exB] ++ exA :: [exB]) (([1, 0, 1] : List (Fin 2)).set ([exB] : List (Site (Fin 2) (Fin 2) ℤ)).length b) :=
+  apply_one_site_amplitudes [exB] [exB] exA exX [1, 0, 1] (by decide)
+
+/-- … the contraction really changes the tensor, and it is not the transposed contraction -/
+example : applySite exX exA 0 = exA 1 ∧ applySite exX exA ≠ applySiteT exX exA ∧ applySite exX exA ≠ exA := by decide
+
+/-- the merged index: the left site is the major one, and the swapped convention is a different tensor -/
+example : mergeSite exA exB (1, 0) = exA 1 * exB 0 ∧ mergeSite exA exB ≠ mergeSiteSwapped exA exB := by decide
+
+/-- C14.4: the trivial exact split `(A', B') = (M·merged as a one-site tensor pair)` exists for a product operator `X ⊗ 1` -/
+example : ∀ s t, applySite exX exA s * exB t
+    = applySite (Matrix.kroneckerMap (· * ·) exX (1 : Matrix (Fin 2) (Fin 2) ℤ)) (mergeSite exA exB) (s, t) := by decide
+
+/-- C14.6a/6b: the hypotheses are met (C10's isometric decomposition oracle; a one-site application on a one-site chain) -/
+example : Represents 1 (applyAt (ι := Unit) (1 : Matrix Unit Unit ℚ) 0) (embedL (siteLens (⟨0, by omega⟩ : Fin 1)) 1) :=
+  represents_applyAt 1 0 (by omega) 1
+
+private theorem exDecIso_iso : (∀ A, LeftIso (exDecIso.qr A).1) ∧ (∀ A B, LeftIso (exDecIso.svd A B).1) := by
+  constructor
+  · intro A
+    unfold LeftIso
+    ext i j
+    by_cases h : A () () () < 0 <;> simp [exDecIso, Matrix.mul_apply, h]
+  · intro A B
+    unfold LeftIso
+    simp [exDecIso]
+
+/-- C14.6b/c, C14.7: every hypothesis is met by a concrete instance — C10's isometric decomposition oracle (1×1 bonds over ℚ,
+    whose `R` is trivially "upper triangular"), the operator `3` on the single site of a one-site chain holding the amplitude `2`,
+    scheduled at `t_2` of the grid `dt = 1/10` -/
+example :=
+  jump_then_normalize 1 (by omega) exDecIso false exDecIso_iso.1 exDecIso_iso.2 _ _
+    (represents_applyAt 1 0 (by omega) (fun _ _ => (3 : ℚ))) [fun _ => fun _ _ => (2 : ℚ)] rfl
+
+example : ∃ r : ℚ, ∀ b, embedL (siteLens (⟨0, by omega⟩ : Fin 1)) (fun _ _ => (3 : ℚ)) *ᵥ psi 1 [fun _ => fun _ _ => (2 : ℚ)] () b
+    = r • psi 1 (normalize exDecIso true true (applyAt (fun _ _ => (3 : ℚ)) 0 [fun _ => fun _ _ => (2 : ℚ)])) () b :=
+  jump_then_normalize_scalar 1 (by omega) exDecIso true () (fun _ j hj => absurd rfl hj) _ _
+    (represents_applyAt 1 0 (by omega) (fun _ _ => (3 : ℚ))) [fun _ => fun _ _ => (2 : ℚ)] rfl
+
+example :=
+  scheduled_jump_dense 1 (by omega) exDecIso exDecIso_iso.1 exDecIso_iso.2
+    [⟨2 / 10, applyAt (fun _ _ => (3 : ℚ)) 0, embedL (siteLens (⟨0, by omega⟩ : Fin 1)) (fun _ _ => (3 : ℚ))⟩]
+    (by
+      intro j hj
+      simp only [List.mem_cons, List.mem_nil_iff, or_false] at hj
+      subst hj
+      exact represents_applyAt 1 0 (by omega) _)
+    (1 / 10) (by norm_num) [2] (by simp [Yaqs.SJump.gridTime]; norm_num) 2 (by simp) [fun _ => fun _ _ => (2 : ℚ)] rfl
+
+/-- C14.8: `φ = 3·ψ'`, `ψ' = e₀` of unit norm, an asymmetric observable matrix -/
+example : star ![(1 : ℚ), 0] ⬝ᵥ !![(5 : ℚ), 1; 2, 7] *ᵥ ![(1 : ℚ), 0]
+    = (star ![(3 : ℚ), 0] ⬝ᵥ !![(5 : ℚ), 1; 2, 7] *ᵥ ![(3 : ℚ), 0]) / (star ![(3 : ℚ), 0] ⬝ᵥ ![(3 : ℚ), 0]) :=
+  jump_branch_value _ _ _ 3 (by ext i; fin_cases i <;> simp) (by simp [dotProduct, Fin.sum_univ_two])
+    (by simp [dotProduct, Fin.sum_univ_two])
+
+/-- executable model: the lowering-type asymmetric operator `[[0,1],[2,3]]` on a `(2,1,2)` tensor -/
+def exOp : Mat := [[⟨0, 0⟩, ⟨1, 0⟩], [⟨2, 0⟩, ⟨3, 0⟩]]
+def exT : Tensor := [[[⟨1, 0⟩, ⟨2, 0⟩]], [[⟨0, 1⟩, ⟨5, 0⟩]]]
+def exT2 : Tensor := [[[⟨1, 0⟩], [⟨1, 0⟩]], [[⟨0, 0⟩], [⟨3, 0⟩]]]
+
+example : applyOne exOp exT = [[[⟨0, 1⟩, ⟨5, 0⟩]], [[⟨2, 3⟩, ⟨19, 0⟩]]] ∧ applyOne exOp exT ≠ applyOneT exOp exT := by
+  decide +kernel
+
+example : mergeKet2 exT exT2 = [[[⟨3, 0⟩]], [[⟨6, 0⟩]], [[⟨5, 1⟩]], [[⟨15, 0⟩]]] ∧
+    mergeKet2 exT exT2 ≠ mergeKet2Swapped exT exT2 := by decide +kernel
+
+/-- C14.9a on the two-site chain `[exT, exT2]`: well-shaped, and the amplitudes after `applyOne` are the predicted sums -/
+example : wellShapedChain 2 ([] ++ exT :: [exT2]) = true ∧
+    amp ([] ++ applyOne exOp exT :: [exT2]) ([] ++ 1 :: [1]) = some ⟨57, 0⟩ ∧
+    (amp ([] ++ exT :: [exT2]) ([] ++ 0 :: [1])).getD 0 = ⟨6, 0⟩ ∧
+    (amp ([] ++ exT :: [exT2]) ([] ++ 1 :: [1])).getD 0 = ⟨15, 0⟩ := by decide +kernel
+
+example : splitTheta 2 2 (mergeKet2 exT exT2) = thetaMat exT exT2 := by decide +kernel
+
+/-- C14.11a/b on three qubits: the lowering-type matrix on site 1 of `|0 1 1⟩` (Kronecker position 3) -/
+example : Yaqs.Lottery.vecGet (Yaqs.Lottery.apply1 3 1 [[⟨0, 0⟩, ⟨1, 0⟩], [⟨2, 0⟩, ⟨3, 0⟩]]
+    ((List.range 8).map fun i => (⟨i, 0⟩ : Yaqs.Lottery.CR))) (Yaqs.Index.kronIdx [2, 2, 2] [0, 1, 1]) = ⟨2 * 1 + 3 * 3, 0⟩ := by
+  decide +kernel
+
+/-- C14.7: one jump scheduled at `t_2` among jumps at `t_2, t_5`: position `0` is the only one applied at grid index 2 -/
+example : (List.range 2).filter (fun i => ([2, 5] : List Nat)[i]? == some 2) = [0] := by decide
+
+end examples
+
+end Yaqs.LocalOp
